@@ -82,6 +82,9 @@ def top_attr(path):
     return parts[0] if parts else "?"
 
 
+UNRENDERED: list = []  # paths of references to the old table that no rendering shows (reported in the evidence notes, never as a violation)
+
+
 def compare(p, old_kind, new_kind, root_is_term):
     """-> list of (sig, detail)"""
     out = []
@@ -105,20 +108,27 @@ def compare(p, old_kind, new_kind, root_is_term):
         return [(mksig("raised", type(e).__name__, _where_raised(e)), "replace_table on %s raised %r" % (cname, e))]
     if snap.render_snapshot(recv, meta=False) != before:
         out.append((mksig("receiver_changed", cname), "the receiver renders differently after replace_table"))
-    left = find_tables(res, old)
-    if left and OLD_SPECS[old_kind] != new_spec:
-        path, holder = left[0]
-        out.append((mksig("kept_old", top_attr(path) if not root_is_term else "term", _base(holder or cname)),
-                    "a reference to the old table survives at %s (held by %s); e.g. result renders %r" % (path, holder, _safe_sql(res, root_is_term))))
+    # the property speaks of the rendering: the walk of the object graph only NAMES the place (and so the root cause) once a rendering differs;
+    # a reference that no rendering shows is counted, not reported
+    left = find_tables(res, old) if OLD_SPECS[old_kind] != new_spec else []
+    differs = None
     for cn in CTXS:
         ctx = prog.sql_context(cn)
         if root_is_term:
             ctx = ctx.copy(with_namespace=True)
         a, b = snap._try(lambda: res.get_sql(ctx)), snap._try(lambda: expect.get_sql(ctx))
         if a != b:
-            if not left:
-                out.append((mksig("differs", cname if root_is_term else _kind(p), _first_clause_diff(a, b)), "under %s: replace_table gives %r, building with the new table gives %r" % (cn, a, b)))
+            differs = (cn, a, b)
             break
+    if differs and left:
+        path, holder = left[0]
+        out.append((mksig("kept_old", top_attr(path) if not root_is_term else "term", _base(holder or cname)),
+                    "a reference to the old table survives at %s (held by %s): under %s replace_table gives %r, building with the new table gives %r" % (path, holder, differs[0], differs[1], differs[2])))
+    elif differs:
+        cn, a, b = differs
+        out.append((mksig("differs", cname if root_is_term else _kind(p), _first_clause_diff(a, b)), "under %s: replace_table gives %r, building with the new table gives %r" % (cn, a, b)))
+    elif left:
+        UNRENDERED.append(left[0][0])
     return out
 
 
@@ -376,9 +386,8 @@ def check_class_cell(tcls, cls_name):
     got = [t.key for t in lex.lex(after, cls_name)]
     if got != want:
         return ("viol", "differs", "%s under %s: %r became %r" % (tcls.__name__, cls_name, before, after))
-    left = find_tables(r, old)
-    if left:
-        return ("viol", "kept_old", "%s: a reference to the old table survives at %s; result renders %r" % (tcls.__name__, left[0][0], after))
+    if find_tables(r, old):
+        UNRENDERED.append(tcls.__name__)  # the rendering is right: a stale reference that nothing shows is not the property's business
     return ("ok", nrefs)
 
 
@@ -432,6 +441,15 @@ def shards(tier, sd):
 
 
 def run_shard(shard):
+    del UNRENDERED[:]
+    col = _run_shard(shard)
+    if UNRENDERED:
+        col.count("unrendered_reference_to_old_table", len(UNRENDERED))
+        col.notes["unrendered_references"] = sorted(set(UNRENDERED))[:20]
+    return col
+
+
+def _run_shard(shard):
     kind, tier, arg = shard
     col = Collector()
     if kind == "templates":
